@@ -42,7 +42,7 @@ def _model_known(case: Case) -> dict:
     res = {}
     for e in _split_known(known):
         k, v = e.split("=", 1)
-        res[k] = v.endswith("!")
+        res[k] = (v.rstrip("!"), v.endswith("!"))
     return res
 
 
@@ -107,11 +107,13 @@ def oracle(case: Case, out: str):
         if want != have:
             if ghost is None:
                 ghost = _model_known(case)
-            tainted = ghost.get(f"{v}@{tok}")
+            mval, tainted = ghost.get(f"{v}@{tok}", (None, None))
             msg = f"retained v{v}@{tok} = {have}, a fresh simulation given the inputs and the other retained values computes {want}"
-            if tainted:
+            # the recorded finding F-C02b is exactly: the MODEL (= the code's marking rule) retains this very
+            # value and knows it is derived from a substituted default; anything else is a new failure
+            if tainted and mval == have:
                 return ("retained-derived-from-spiral-default:ancestor-above-earlier-occurrence", msg)
-            return ("retained-not-reproducible", msg + f" (model ghost bit: {tainted})")
+            return ("retained-not-reproducible", msg + f" (model: value {mval}, ghost bit {tainted})")
     return None
 
 
@@ -162,6 +164,7 @@ PROP = Prop(
     pid="C02",
     lean_targets=["OFCore.Props.C02"],
     driver="ofdrv_sim",
+    known_diffs_binding=True,      # the model mirrors the code inside F-C02b: the correspondence stays binding there
     generate=generate, impl=impl, oracle=oracle, nontrivial=nontrivial, corpus=corpus, canon_equal=canon_equal,
     rule=("rule systems of the C01 generator (40%) and a spiral stream (60%): 2-5 monthly variables that read themselves or each other at "
           "last_month / offset -2, with consumers requested after the spiral; max_spiral_loops in {1,2,3}; 2-6 top-level requests and a random "
